@@ -143,6 +143,12 @@ func c15RunOpt(run *ev.Run, u *uni.U, origins []string, wans, dans []string, war
 	// Second option: the LOG keys carry the witness key's NAME (own key
 	// material) - a signature by such a log key is not a witness signature.
 	namesake := len(slashed) > 1 && slashed[1]
+	// prefixed: the distributor service lives below a path prefix (behind a
+	// gateway); every PUT must go below that prefix.
+	basePrefix := ""
+	if len(slashed) > 2 && slashed[2] {
+		basePrefix = "/gw/prod"
+	}
 	var logs []*c15Log
 	for i, o := range origins {
 		key := u.K1
@@ -241,7 +247,7 @@ func c15RunOpt(run *ev.Run, u *uni.U, origins []string, wans, dans []string, war
 	for _, l := range logs {
 		cfgs = append(cfgs, l.cfg)
 	}
-	d, err := rest.NewDistributor("http://dist.example", &http.Client{Transport: tr}, cfgs, wk.CosigVerif, &c15Witness{logs: logs})
+	d, err := rest.NewDistributor("http://dist.example"+basePrefix, &http.Client{Transport: tr}, cfgs, wk.CosigVerif, &c15Witness{logs: logs})
 	if err != nil {
 		ev.Internal("NewDistributor: %v", err)
 	}
@@ -265,7 +271,7 @@ func c15RunOpt(run *ev.Run, u *uni.U, origins []string, wans, dans []string, war
 	}
 	derr := d.DistributeOnce(context.Background())
 
-	rep := map[string]any{"kind": "distribute", "origins": origins, "witness_answers": wans, "distributor_answers": dans, "after_a_valid_round": warm, "witness_name_with_slash": wk.Name == u.W4.Name, "log_keys_named_like_the_witness": namesake}
+	rep := map[string]any{"kind": "distribute", "origins": origins, "witness_answers": wans, "distributor_answers": dans, "after_a_valid_round": warm, "witness_name_with_slash": wk.Name == u.W4.Name, "log_keys_named_like_the_witness": namesake, "base_url_with_path": basePrefix != ""}
 	desc := func(s string) string {
 		w := ""
 		if warm {
@@ -283,7 +289,7 @@ func c15RunOpt(run *ev.Run, u *uni.U, origins []string, wans, dans []string, war
 		sig := func(k string) string {
 			return fmt.Sprintf("%s witness-answer=%s distributor-answer=%s position=%s", k, l.wans, l.dans, posKind(i, len(logs)))
 		}
-		wantPath := fmt.Sprintf("/distributor/v0/logs/%s/byWitness/%s/checkpoint", l.cfg.ID, url.PathEscape(wk.CosigVerif.Name()))
+		wantPath := basePrefix + fmt.Sprintf("/distributor/v0/logs/%s/byWitness/%s/checkpoint", l.cfg.ID, url.PathEscape(wk.CosigVerif.Name()))
 		var mine []c15Put
 		for _, p := range tr.puts {
 			if strings.Contains(p.Path, "/logs/"+l.cfg.ID+"/") {
@@ -436,7 +442,9 @@ func c15(tier string) int {
 						c15RunOpt(run, u, origins[:a.n], a.wans, a.dans, false, true)
 						// ... and with log keys that carry the witness key's name.
 						c15RunOpt(run, u, origins[:a.n], a.wans, a.dans, false, false, true)
-						k += 2
+						// ... and with the distributor service below a path prefix.
+						c15RunOpt(run, u, origins[:a.n], a.wans, a.dans, false, false, false, true)
+						k += 3
 						run.Distinct(fmt.Sprint("warm", a.n, a.wans, a.dans))
 					}
 					mu.Lock()
@@ -517,7 +525,7 @@ func c15(tier string) int {
 	run.Set("exhaustive", true)
 	run.Set("witness_answer_menu", c15WitnessAnswers)
 	run.Set("distributor_answer_menu", c15DistAnswers)
-	run.Set("rule", fmt.Sprintf("the real Distributor.DistributeOnce with a scripted witness and an in-process stub distributor (RoundTripper): ALL assignments of (witness answer x distributor answer) for 1 and 2 logs, each also as the second polling round of a Distributor whose first round was entirely valid; for 3..6 logs all assignments with at most %d logs (1-2 for 5-6 logs) deviating from (valid, 200) at every position. For 1 and 2 logs every assignment also with a witness key whose name contains a slash (the path names it in one escaped segment), and with log keys that carry the witness key's NAME. Oracle: exactly one PUT per log whose witness answer is valid, at /distributor/v0/logs/<id>/byWitness/<witness key name>/checkpoint, body byte-identical to what the witness reported; no PUT for any other log; every log attempted regardless of earlier failures; error iff some log failed, with the right count; then one more round on the same Distributor in which everything is valid: every log pushed exactly once, exact bytes, no error. The two unusual valid shapes (70 KiB of extension lines; unknown signature lines around the witness line) are combined with distributor answers 200, 500 and body-left-unread only. distinct_nontrivial = distinct assignments", k))
+	run.Set("rule", fmt.Sprintf("the real Distributor.DistributeOnce with a scripted witness and an in-process stub distributor (RoundTripper): ALL assignments of (witness answer x distributor answer) for 1 and 2 logs, each also as the second polling round of a Distributor whose first round was entirely valid; for 3..6 logs all assignments with at most %d logs (1-2 for 5-6 logs) deviating from (valid, 200) at every position. For 1 and 2 logs every assignment also with a witness key whose name contains a slash (the path names it in one escaped segment), with log keys that carry the witness key's NAME, and with a distributor base URL that has a path component (every PUT stays below it). Oracle: exactly one PUT per log whose witness answer is valid, at /distributor/v0/logs/<id>/byWitness/<witness key name>/checkpoint, body byte-identical to what the witness reported; no PUT for any other log; every log attempted regardless of earlier failures; error iff some log failed, with the right count; then one more round on the same Distributor in which everything is valid: every log pushed exactly once, exact bytes, no error. The two unusual valid shapes (70 KiB of extension lines; unknown signature lines around the witness line) are combined with distributor answers 200, 500 and body-left-unread only. distinct_nontrivial = distinct assignments", k))
 	run.Assumption("a checkpoint carrying a second, foreign witness signature is outside the property's claim and is not judged; a connection error is modelled as failing before the request body is read")
 	return run.Finish()
 }
